@@ -1293,6 +1293,14 @@ def run_c14_typed(ctx):
                               'expected': 'accepted iff nesting <= 127 (here %d), otherwise a recursion-limit error' % n, 'actual': a, 'shrinkable': False})
                 else:
                     ctx.distinct_nontrivial += 1
+        if cfg == 'ud':
+            # unbounded_depth with the limit disabled: the same profiles are all accepted (and equal the model)
+            LU = ctx.letters(cfg, unlimited=True)
+            lines = ['pt %s b %s %s' % (LU, t, hx(d)) for t, d, n in profs]
+            io, mo = judge_lines(ctx, cfg, lines, v)
+            for (t, d, n), a in zip(profs, io):
+                if not is_ok(a):
+                    v.append({'what': 'typed-unbounded-depth-rejected', 'cfg': cfg, 'ty': t[:80], 'input': hx(d), 'expected': 'ok with the limit disabled (nesting %d)' % n, 'actual': a, 'shrinkable': False})
         # skipped content (unknown field, IgnoredAny member) is scanned iteratively: any depth
         deep = [('S(61:i0)', b'{"zz":' + b'[' * 5000 + b']' * 5000 + b',"a":1}'), ('t(gi0)', b'[' + b'{"k":' * 3000 + b'1' + b'}' * 3000 + b',2]'),
                 ('ag', b'[' + b'[' * 100000 + b']' * 100000 + b']')]
